@@ -316,6 +316,22 @@ func runC01(w *W) {
 // explorerCase runs the deviation-bounded DFS for one scenario as one case. A replay id of the form
 // "<scenario>@@<json schedule>" re-executes exactly one schedule.
 func (w *W) explorerCase(id string, bound int, run func(r *xrun) []Violation) {
+	w.explorerCaseParts(id, bound, 1, run)
+}
+
+// explorerCaseParts splits the exploration of one scenario into `parts` cases (first-level subtrees
+// dealt round-robin) so that a large scenario uses several worker processes.
+func (w *W) explorerCaseParts(id string, bound int, parts int, run func(r *xrun) []Violation) {
+	if parts <= 1 {
+		w.explorerCasePart(id, bound, 0, 1, run)
+		return
+	}
+	for p := 0; p < parts; p++ {
+		w.explorerCasePart(fmt.Sprintf("%s part=%d/%d", id, p, parts), bound, p, parts, run)
+	}
+}
+
+func (w *W) explorerCasePart(id string, bound int, part, parts int, run func(r *xrun) []Violation) {
 	var only []string
 	realOnly := w.Job.Only
 	if i := strings.Index(realOnly, "@@"); i >= 0 && realOnly[:i] == id {
@@ -337,7 +353,7 @@ func (w *W) explorerCase(id string, bound int, run func(r *xrun) []Violation) {
 		if s := os.Getenv("VERIF_MAXEXEC"); s != "" {
 			fmt.Sscan(s, &maxExec)
 		}
-		st, viols := exploreDFS(bound, maxExec, time.Now().Add(dl), only, w.Beat, run)
+		st, viols := exploreDFS(bound, maxExec, time.Now().Add(dl), only, w.Beat, part, parts, run)
 		out.Nontrivial = st.Executions > 1 || st.MaxPoints > 0
 		out.count("executions", st.Executions)
 		out.count("states", st.States)
